@@ -468,36 +468,43 @@ claim("C22",
                 "interleaving scenario as cross-check and replay")
 
 claim("C29",
-      "BOUNDED stand-in, nothing is proved: merge_generators, debounced_sorted_prefix and Debouncer are async "
-      "generators over tasks and asyncio.wait, which pyvc cannot execute symbolically (no generator protocol, no task "
-      "model). The statement itself is evaluated as a run-time checked contract on the real functions (loaded from "
-      "the file on every run) over an exhaustively enumerated family of schedules under a virtual clock, so that "
-      "arrivals coincide exactly with the window deadlines: every yielded sequence is (the items that arrived inside "
-      "the window, sorted) followed by (the later items in arrival order), with every item exactly once, no item "
-      "that arrived inside the window passed through and none that arrived after it closed sorted in (fix 78cbc59: "
-      "an item delivered between the closing of the window and the flush overtook the burst); merge_generators yields "
-      "every item of every source once, in source order, and re-raises a source's error.",
-      "Everything outside the enumeration (longer streams, other delays, more than three sources, tie orders a real "
-      "clock could produce, stop_on_first_completion) is not covered; an arrival exactly at the closing instant may go "
-      "either way (the statement does not say).",
-      category="exploration",
-      technique="bounded stand-in for contract verification: run-time checked contract (the property's own "
-                "postcondition) on the real async generators over an exhaustive enumeration of arrival schedules under "
-                "a virtual event-loop clock; a deductive proof is out of pyvc's reach (generators, tasks)")
+      "debounced_sorted_prefix is under a z3-discharged contract on the real code: the async generator is verified as "
+      "the function that builds the sequence it yields (`yield e` read as an append to a ghost list, mechanically, on "
+      "the real AST of every run) over the merged stream as a finite sequence in which the debouncer's one-shot marker "
+      "sits at ANY position c (that position is what 'all item timings relative to the debounce window' comes to): "
+      "every item is yielded once, the first c yielded items are exactly the items delivered before the marker (in the "
+      "order the sort gives them), the rest are the later items in arrival order - so nothing overtakes the burst (fix "
+      "78cbc59: passthrough was decided by the debouncer's flag, not by the flush). merge_generators, the Debouncer's "
+      "timing and the composition are covered only by a BOUNDED stand-in: the statement's postconditions evaluated on "
+      "the real async generators over an exhaustive enumeration of arrival schedules under a virtual clock (arrivals "
+      "coincide exactly with the window deadlines): sorted burst of exactly the in-window items, then arrival order, "
+      "every item once; merge: every item once, source order, a source's error re-raised.",
+      "ASSUMED by the contract of debounced_sorted_prefix: the merged stream delivers the marker exactly once and "
+      "`inner` never produces the marker string (merge_generators' exactly-once delivery is only in the bounded "
+      "check); that the burst is SORTED (list.sort is modelled as an unspecified permutation); the Debouncer object is "
+      "opaque (which items fall inside the window is decided by the bounded check only). Everything outside the "
+      "enumeration (longer streams, other delays, more than three sources, tie orders a real clock could produce, "
+      "stop_on_first_completion) is not covered; an arrival exactly at the closing instant may go either way.",
+      category="other",
+      technique="contract-based deductive verification of debounced_sorted_prefix (generator read as the builder of its "
+                "output sequence, loop invariants, pyvc + z3); bounded stand-in (run-time checked contract over an "
+                "exhaustive enumeration of arrival schedules under a virtual event-loop clock) for merge_generators, "
+                "the Debouncer's timing and the composition")
 
 claim("C33",
       "BOUNDED stand-in, nothing is proved: create_backup_archive / read_backup_archive are tarfile + gzip + PyYAML + "
       "json + AES-GCM code (library semantics pyvc has no encoding for; `cryptography` is not installed here). The "
       "statement is evaluated as a run-time checked contract on the real archive.py (loaded from the file on every "
-      "run, encryption.py replaced by a stand-in with the assumed contract of an authenticated cipher) over an "
+      "run together with the real encryption.py; only the three `cryptography` primitives it imports are a stand-in "
+      "package with their assumed contracts) over an "
       "enumerated family of archives: reading what was created returns the same deployment resources, secrets and "
       "generations under the same names, in order, with a manifest that says what was asked for, with and without a "
       "password; and whenever a password is given every secret is routed through encrypt - no secret is stored in "
       "plaintext or readable with another / no password (fix 311cab1: with an empty password the archive said "
       "'encrypted' and stored plaintext).",
-      "The cipher itself (PBKDF2 + AES-GCM in encryption.py: decrypt(encrypt(p, pw), pw) == p, wrong password "
-      "raises) is ASSUMED and never executed here; everything outside the enumeration (more than 2 / 3 deployments, "
-      "other resource shapes, other secret values) is not covered; no seeded changes were written for this property.",
+      "The primitives (PBKDF2HMAC deterministic in password and salt; AESGCM authenticated) are ASSUMED stand-ins - "
+      "`cryptography` is not installed; encryption.py's own code (salt / nonce, wire format, length check) IS executed; everything outside the enumeration (more than 2 / 3 deployments, "
+      "other resource shapes, other secret values) is not covered.",
       category="exploration",
       technique="bounded stand-in for contract verification: run-time checked contract (the property's own "
                 "postcondition) on the real archive functions over an exhaustive enumeration of small backups, with the "
